@@ -20,7 +20,7 @@ CHECKS = {
     "C19": dict(cat="other", ref="DESIGN.md §4 C19", technique="CrossHair symbolic execution of ChannelFileRead.read/readline and ChannelFileWrite against a reference file; symbolic item contents and read sizes, enumerated item counts and op sequences",
                 text="Bounded differential symbolic check of the real channel-file classes against a position+slice reference file."),
     "C20": dict(cat="other", ref="DESIGN.md §4 C20", technique="CrossHair symbolic execution of XSpec parsing/printing/equality and Group registration/lookup/allocate_id with symbolic values and ids",
-                text="Bounded symbolic check of spec parsing (catalogue keys x symbolic values, duplicates of either kind) and of the group container/id-allocation code (symbolic ids); the concurrent-allocation part of the statement is outside this check."),
+                text="Bounded symbolic check of spec parsing (catalogue keys x symbolic values, duplicates of either kind) and of the group container/id-allocation code (symbolic ids); the concurrent-allocation part is decided by an E3 kernel argument (counter read and increment under the lock, extracted by AST; freshness invariant inductive in z3)."),
     "C08": dict(cat="other", ref="DESIGN.md §4 C08, §11", technique="E1: CrossHair symbolic execution of Message.to_io/from_io over the real Popen2IO/SocketIO/ProxyIO adapters with symbolic message fields and chunking; E2: bounded model checking (z3) of concurrent BaseGateway._send callers down to the low-level write contract, counterexamples replayed on the real SocketIO/Popen2IO",
                 text="Bounded symbolic check of framing under arbitrary chunking on all transports' adapters, plus bounded model checking over all schedules of 2-3 concurrent senders that the wire is a concatenation of whole frames (socket.sendall modelled as non-atomic partial sends).",
                 note=E1_NOTE + "; E2 part trusts the translator (validated per run), the sendall/BufferedWriter contracts stated in the evidence and z3"),
